@@ -282,6 +282,17 @@ theorem multiband_only_osnr (amps : List ((Int → Bool) × (Int → Elem ℝ)))
   · rw [heq, hel]; exact (edfa_only_osnr v e g c (hlive _ hc) he).2.1
   · rw [heq, hel]; exact (edfa_only_osnr v e g c (hlive _ hc) he).2.2
 
+/-- a spectrum through one element: channel by channel no figure improves -/
+theorem applyElems_monotone (es : List (Elem ℝ)) (sp : List (Chan ℝ))
+    (h : List.Forall₂ (fun e c => Live c ∧ RunOk e.ops c) es sp) :
+    List.Forall₂ (fun c c' => Worse c c') sp (applyElems es sp) := by
+  induction h with
+  | nil => exact List.Forall₂.nil
+  | cons hd _ ih =>
+    simp only [applyElems, List.zipWith_cons_cons]
+    exact List.Forall₂.cons (run_monotone _ _ hd.1 hd.2) ih
+
+
 /-! ### non-vacuity -/
 
 /-- a guarded path ROADM → amplifier → fibre → amplifier exists (hypotheses of `path_monotone`) -/
